@@ -468,3 +468,17 @@ def main_wrapper(run, prop):
     except InfraError as e:
         print('INFRA-ERROR %s: %s' % (prop, e))
         sys.exit(2)
+    except (KeyboardInterrupt, SystemExit):
+        raise
+    except Exception as e:
+        # the library under test behaved in a way the harness did not expect (or the harness is broken): what was found so
+        # far is reported; if nothing was, the run counts as "correspondence no longer checks" (never as a silent pass)
+        tb = traceback.format_exc()
+        chk.broken.append({'what': 'harness-exception', 'detail': tb[-1500:]})
+        chk.notes.append('run aborted by %r' % (e,))
+        sys.stderr.write(tb)
+        try:
+            sys.exit(chk.finish())
+        except InfraError as e2:
+            print('INFRA-ERROR %s: %s' % (prop, e2))
+            sys.exit(2)
